@@ -214,6 +214,28 @@ def w_giant(exe, modes, size, opts, prop, which):
     return part
 
 
+def dictionary_strings():
+    """Real-world spellings (vlib/words.py) plus the *symbol-pair cover*: every pair of atext symbols (and a letter, a digit, a dot) at
+    the start x every pair at the end of a short atom - a rule keyed on a specific two-byte prefix and suffix (RFC 2047 encoded
+    words, BATV tags ...) cannot hide behind the class alphabets, where one symbol stands for all."""
+    from . import words
+    out = set(words.REAL_LOCALS)
+    for w in words.REAL_LOCALS:
+        out.add(w.upper())
+        out.add(w.lower())
+        out.add(w + b".x")
+        out.add(b"x." + w)
+    syms = [bytes([c]) for c in words.ATEXT_SYMBOLS] + [b"a", b"1", b"."]
+    for a in syms:
+        for b in syms:
+            out.add(a + b)
+            for c in syms:
+                out.add(a + b + c)
+                for d in syms:
+                    out.add(a + b + b"x" + c + d)
+    return sorted(x for x in out if x)
+
+
 HUGE = 1 << 31
 
 
